@@ -247,7 +247,14 @@ func (w *World) Judge(conn int, m wire.Msg) Verdict {
 	case wire.Tlopen:
 		f := need(0)
 		if f != nil {
+			if f.X == 1 {
+				// the fid Txattrwalk bound follows the xattr read sub-protocol:
+				// it has no type that can be opened
+				return rejAny("xattr-fid-cannot-be-opened", EINVAL)
+			}
 			if f.X != 0 {
+				// a fid turned into an xattr-create fid keeps its file: whether
+				// it may still be opened is not addressed
 				return Verdict{DontCare: true}
 			}
 			if f.Fenced {
@@ -256,7 +263,7 @@ func (w *World) Judge(conn int, m wire.Msg) Verdict {
 			if f.Opened {
 				rs = append(rs, rejAny("already-open", EINVAL))
 			}
-			if f.Typ == 'l' || f.Typ == 's' {
+			if f.Typ == 'l' || f.Typ == 's' || f.Typ == 'x' {
 				rs = append(rs, rejAny("type-cannot-be-opened", EINVAL))
 			}
 			if f.Typ == 'd' && u64(m.F[1])&3 != 0 {
@@ -641,6 +648,11 @@ func (w *World) Apply(conn int, m wire.Msg, r wire.Msg) {
 			nf := &Fid{Path: append(append([]string(nil), f.Path...), names...)}
 			if len(names) == 0 {
 				nf.Typ, nf.Fenced, nf.Obj = f.Typ, f.Fenced, f.Obj
+				if f.X == 1 {
+					// the clone of an xattrwalk fid is an ordinary fid on the
+					// same file, but like its source it has no openable type
+					nf.Typ = 'x'
+				}
 			} else if w.TypeAt != nil {
 				if t, o, found := w.TypeAt(nf.Path); found {
 					nf.Typ, nf.Obj = t, o
